@@ -136,10 +136,10 @@ def _l2_cases(items):
 
 
 def _witness(item, what):
-    """Find the first failing input of a failing program and the violated state values."""
+    """A failing program with its inputs; the explanation (per-input Coq output) is added lazily
+    for the failures that are reported (see search)."""
     text, st, ins = item
-    detail = _explain(st, ins)
-    return {"what": what, "text": text, "inputs": ins, "detail": detail, "klass": None}
+    return {"what": what, "text": text, "inputs": ins, "_st": st, "klass": None}
 
 
 def _explain(st, ins):
@@ -168,6 +168,9 @@ def search(ctx, deep=False):
     for f in fails:
         if f["what"] not in seen:
             seen.add(f["what"])
+            st = f.pop("_st", None)
+            if st is not None:
+                f["detail"] = _explain(st, f["inputs"])
             out.append(f)
     return out
 
